@@ -15,7 +15,7 @@ View == W
 
 \* every action the constants allow (a constant set: TLC labels the edges of the dumped graph with the action)
 AllActs ==
-    {<<"commit">>, <<"lock">>, <<"unlock">>, <<"relock">>, <<"badtoken">>, <<"contend">>, <<"lastinfo">>, <<"parentmap">>,
+    {<<"commit">>, <<"lock">>, <<"unlock">>, <<"relock">>, <<"badtoken">>, <<"contend">>, <<"lastinfo">>, <<"parentmap">>, <<"mergesorted">>, <<"revnomap">>, <<"askabsent">>,
      <<"tags">>, <<"getcfg">>, <<"allrevs">>, <<"pullout">>, <<"pushout">>}
     \cup {<<"fetch", r>> : r \in FetchRevs} \cup {<<"settip", r>> : r \in TipRevs} \cup {<<"genhist", r>> : r \in GenRevs}
     \cup {<<o, s, ov>> : o \in {"pull", "push"}, s \in Srcs, ov \in {0, 1}}
@@ -32,26 +32,29 @@ Acts(w) == {a \in AllActs : Possible(w, a)}
 
 Init == W = W0 /\ n = 0
 Op(a) == /\ n < MaxLen /\ Possible(W, a)
-         /\ W' = Do(W, a).W
+         /\ W' = Effect(W, a)
          /\ n' = IF a[1] \in Mutators THEN n + 1 ELSE n
 Next == \E a \in AllActs : Op(a)
 Spec == Init /\ [][Next]_vars
 
 (* ---- invariants *)
+\* the graph stays one for which BranchOps!MergeSorted is defined (costly to evaluate: checked in the design run only)
+GraphOK == ChainMerges(W.G)
 StateOK == AncClosed(W) /\ TipPresent(W) /\ RevnoIsLeftHandLength(W) /\ TagsKnownOrGhost(W) /\ LockBalanced(W)
            /\ W.held <= MaxHeld /\ NCommits(W) <= MaxCommits
-ReadsArePure == \A a \in Acts(W) : a[1] \notin Mutators => Do(W, a).W = W
-\* a refused operation changes nothing - except that a diverged pull / push has already fetched
-RefusalIsNoop == \A a \in Acts(W) : LET r == Do(W, a) IN
-                    r.out.err # "" => \/ r.W = W
-                                       \/ (/\ a[1] \in {"pull", "push"} /\ r.out.err = "DivergedBranches"
-                                           /\ r.W = [W EXCEPT !.revs = @ \cup Anc(W.G, Sources[a[2]].tip)])
-\* every return value is an error class or a sequence of numbers (so recorded values can be compared with it)
-OutsWellTyped == \A a \in Acts(W) : LET o == Do(W, a).out IN
-                    /\ o.err \in {"", "NoSuchRevision", "DivergedBranches", "NoSuchTag", "LockNotHeld", "TokenMismatch",
-                                  "LockContention", "RevnoOutOfBounds"}
-                    /\ \A i \in DOMAIN o.val : o.val[i] \in Nat
-                    /\ (o.err # "" => o.val = <<>>)
+\* every operation enabled in W, judged on its one evaluation r = Do(W, a):
+\*   reads are pure; a refused operation changes nothing - except that a diverged pull / push has already fetched;
+\*   every return value is an error class or a sequence of numbers (so recorded values can be compared with it)
+ErrClasses == {"", "NoSuchRevision", "DivergedBranches", "NoSuchTag", "LockNotHeld", "TokenMismatch", "LockContention",
+               "RevnoOutOfBounds"}
+DoOK == \A a \in Acts(W) : LET r == Do(W, a) IN
+           /\ r.W = Effect(W, a)
+           /\ (r.out.err # "" => \/ r.W = W
+                                  \/ (/\ a[1] \in {"pull", "push"} /\ r.out.err = "DivergedBranches"
+                                      /\ r.W = [W EXCEPT !.revs = @ \cup Anc(W.G, Sources[a[2]].tip)]))
+           /\ r.out.err \in ErrClasses
+           /\ \A i \in DOMAIN r.out.val : r.out.val[i] \in Nat
+           /\ (r.out.err # "" => r.out.val = <<>>)
 \* "commit by fetching a prepared revision and setting the tip" is what a pull --overwrite of that revision does to revs / tip
 FetchSetTipIsOverwritePull ==
     \A s \in Srcs : LET st == Sources[s].tip
@@ -71,4 +74,5 @@ WitnessGhostTag == \A t \in TagNames : W.tags[t] \in {0} \cup W.revs
 WitnessOffMainline == \A r \in W.revs : r \in SeqRange(Main(W))
 WitnessCommitOnSide == ~(NCommits(W) > 0 /\ 4 \in SeqRange(Main(W)))
 WitnessNestedLock == W.held < 2
+WitnessMergedRows == \A k \in DOMAIN MergeSorted(W) : MergeSorted(W)[k][2] = 0      \* a dotted revno x.y.z is read
 =============================================================================
